@@ -1023,12 +1023,12 @@ def gen_multiplicity_case(rng, prec, m, form):
 
 def generate_calls(rng, tier_):
     precs = [30, 53, 100] if tier_ == "quick" else [30, 53, 100, 200, 300]
-    rep_open = 8 if tier_ == "quick" else 16
-    rep_brk = 9 if tier_ == "quick" else 18
-    rep_sys = 6 if tier_ == "quick" else 12
-    rep_mn = 1 if tier_ == "quick" else 4
-    rep_pr = 1 if tier_ == "quick" else 3
-    rep_mu = 1 if tier_ == "quick" else 3
+    rep_open = 8 if tier_ == "quick" else 12
+    rep_brk = 9 if tier_ == "quick" else 12
+    rep_sys = 6 if tier_ == "quick" else 10
+    rep_mn = 1 if tier_ == "quick" else 3
+    rep_pr = 1 if tier_ == "quick" else 2
+    rep_mu = 1 if tier_ == "quick" else 2
     maxdeg = 12 if tier_ == "quick" else 20
     calls = []
     for prec in precs:
@@ -1075,6 +1075,22 @@ def _bump(d, *keys):
     d[keys[-1]] = d.get(keys[-1], 0) + 1
 
 
+class _Shim(object):
+    """stand-in for the Report while the real-valued lemmas are certified in a second thread (merged afterwards)"""
+
+    def __init__(self, rep):
+        self.pid = rep.pid; self.viol = []; self.coverage = {}; self.assumptions = []; self.res = None; self.error = None
+
+    def violation(self, what, replay, no_input=False):
+        self.viol.append((what, replay))
+
+    def run(self, insts, calls, tag, params, budget, rule):
+        try:
+            self.res = run_and_report(self, insts, calls, tag=tag, params=params, jobs=4, budget=budget, rule=rule)
+        except Exception as ex:      # re-raised in the main thread
+            self.error = ex
+
+
 def process(rep, todo, tag, budget, rule, tier_):
     """todo: list of call dicts -> run, certify, report"""
     t0 = time.time()
@@ -1113,7 +1129,40 @@ def process(rep, todo, tag, budget, rule, tier_):
         c = dict(call); c.update(extra)
         rep.violation("C29 %s: %s (regime %s, prec %d)" % (call["fn"], text, call["regime"], call["prec"]), c)
     params = {"sentence_timeout": 60 if tier_ == "quick" else 150, "single_timeout": 100 if tier_ == "quick" else 300}
-    res = run_and_report(rep, insts, calls, tag=tag, params=params, budget=max(30, budget - tgen), rule=rule, assumptions=ASSUMPTIONS)
+    # The few real-valued (Interval) lemmas are certified separately from the integer ones, so that the integer batch files
+    # do not have to load Reals/Interval (that load dominates the cost of a batch on a busy machine).
+    zi = [i for i in insts if i.kind == "Z"]
+    ri = [i for i in insts if i.kind != "Z"]
+    left = max(30, budget - tgen)
+    shim = _Shim(rep)
+    th = None
+    if ri:
+        import threading
+        calls_r = {cid: calls[cid] for cid in {i.meta["call"] for i in ri}}
+        th = threading.Thread(target=lambda: shim.run(ri, calls_r, tag + "_R", params, left, rule))
+        th.start()
+    res = run_and_report(rep, zi, calls, tag=tag, params=params, budget=left, rule=rule, assumptions=ASSUMPTIONS)
+    if th is not None:
+        th.join()
+        if shim.error:
+            raise shim.error
+        for what, replay in shim.viol:
+            rep.violation(what, replay)
+        res["verdicts"].update(shim.res["verdicts"])
+        c1, c2 = rep.coverage, shim.coverage
+        for k in ("coq_lemmas", "distinct_nontrivial", "certified_pass", "certified_fail", "inconclusive", "trivial_instances"):
+            c1[k] += c2[k]
+        c1["samples"] = [x for x in c2["samples"] if isinstance(x, dict)][:2] + [x for x in c1["samples"] if isinstance(x, dict)]
+        c1["samples"] = c1["samples"] or ["no non-trivial certified instance"]
+        c1["inconclusive_list"] = (c1["inconclusive_list"] + c2["inconclusive_list"])[:40]
+        c1["by_kind"].update(c2["by_kind"]); c1["by_function"].update({k + " [R]": v for k, v in c2["by_function"].items()})
+        c1["i_prec_range"] = c2["i_prec_range"]
+        c1["checker_cmd"] = c1["checker_cmd"] + " ; real-valued lemmas: " + c2["checker_cmd"]
+        c1["checker_cmd_detail"] = {"Z": c1["checker_cmd_detail"], "R": c2["checker_cmd_detail"]}
+        c1["trusted_base"] = c1["trusted_base"] + c2["trusted_base"]
+        c1["cert_dir"] = [c1["cert_dir"], c2["cert_dir"]]
+        c1["cert_wall_s_R"] = c2["cert_wall_s"]
+        c1["slowest"] = sorted(c1["slowest"] + c2["slowest"], key=lambda d: -d["secs"])[:5]
     V = res["verdicts"]
     clause = {}
     for ins in insts:
